@@ -36,5 +36,13 @@ meta = {
     "checks": {c: {"exit": v["rc"], "violation_lines": v["violations"], "clauses": v["clauses"]} for c, v in ev.get("checks", {}).items()},
     "detected": any(v["rc"] == 1 and v["violations"] > 0 for v in ev.get("checks", {}).values()),
 }
-json.dump(meta, open(os.path.join(dst, "meta.json"), "w"), indent=1)
+# an earlier evaluation (before the check was strengthened) is kept as history
+mp = os.path.join(dst, "meta.json")
+if os.path.exists(mp):
+    old = json.load(open(mp))
+    hist = old.get("history", [])
+    if old.get("checks") != meta["checks"]:
+        hist.append({"repo_head": old.get("confirmed_by_lead", {}).get("repo_head"), "checks": old.get("checks"), "detected": old.get("detected")})
+    meta["history"] = hist
+json.dump(meta, open(mp, "w"), indent=1)
 print(dst, "detected" if meta["detected"] else "NOT DETECTED", meta["checks"])
